@@ -527,7 +527,7 @@ static void add_failure(Totals &T, const Failure &f) {
 static void run_unit(const str &prop, const Scope &sc, const Cell &cell, Totals &T, double per_sub_timeout) {
   std::vector<SubCell> subs = subcells_for(prop, sc, cell);
   CA = Cache();
-  CELLINFO = fmt("pal=%s,stretch=%d,sigma=%d,L=%d,nf=%d,pre=%d", PALETTES[cell.pal].name, cell.stretch, cell.sigma, cell.L, sc.nf, cell.pre);
+  CELLINFO = fmt("pal=%s,stretch=%d,sigma=%d,L=%d,nf=%d,pre=%d,rep=%d", PALETTES[cell.pal].name, cell.stretch, cell.sigma, cell.L, sc.nf, cell.pre, cell.rep);
   int start = 0;
   T.units++;
   while (start < (int)subs.size()) {
@@ -629,7 +629,7 @@ static str cell_sample(const Cell &cell, const Unit &u, size_t nsubs) {
 int main(int argc, char **argv) {
   str prop, scope_s, out, shard = "0/1", one_kind, one_params, one_strings, one_src, one_Q;
   double deadline = 1e18, subto = 20;
-  bool one = false; int one_sigma = 2, one_L = 2, one_stretch = 1, one_pal = 0, one_nf = 2, one_pre = 0;
+  bool one = false; int one_sigma = 2, one_L = 2, one_stretch = 1, one_pal = 0, one_nf = 2, one_pre = 0, one_rep = 1;
   for (int i = 1; i < argc; i++) {
     str a = argv[i]; auto nx = [&]() { return str(i + 1 < argc ? argv[++i] : ""); };
     if (a == "--prop") prop = nx(); else if (a == "--scope") scope_s = nx(); else if (a == "--out") out = nx();
@@ -639,7 +639,7 @@ int main(int argc, char **argv) {
     else if (a == "--one") one = true; else if (a == "--kind") one_kind = nx(); else if (a == "--params") one_params = nx();
     else if (a == "--strings") one_strings = nx(); else if (a == "--src") one_src = nx();
     else if (a == "--sigma") one_sigma = atoi(nx().c_str()); else if (a == "--L") one_L = atoi(nx().c_str());
-    else if (a == "--stretch") one_stretch = atoi(nx().c_str()); else if (a == "--pal") one_pal = pal_by_name(nx()); else if (a == "--nf") one_nf = atoi(nx().c_str()); else if (a == "--pre") one_pre = atoi(nx().c_str());
+    else if (a == "--stretch") one_stretch = atoi(nx().c_str()); else if (a == "--pal") one_pal = pal_by_name(nx()); else if (a == "--nf") one_nf = atoi(nx().c_str()); else if (a == "--pre") one_pre = atoi(nx().c_str()); else if (a == "--rep") one_rep = atoi(nx().c_str());
   }
   __sanitizer_install_malloc_and_free_hooks(malloc_hook, free_hook);
   pg_init();
@@ -651,11 +651,11 @@ int main(int argc, char **argv) {
     NOFRAMES = true;
     // replay of a single sub-cell: same code path, explicit cell
     Cell cell; cell.sigma = one_sigma; cell.L = one_L; cell.stretch = one_stretch; cell.pal = one_pal;
+    if (!one_strings.empty() && one_strings[0] == '@') { std::ifstream sf(one_strings.substr(1)); std::stringstream ss; ss << sf.rdbuf(); one_strings = ss.str(); while (!one_strings.empty() && (one_strings.back() == '\n' || one_strings.back() == ' ')) one_strings.pop_back(); }
     for (auto &h : split(one_strings, ',')) if (!h.empty()) cell.S.push_back(unhex(h));
     std::sort(cell.S.begin(), cell.S.end(), ult);
     cell.Q = query_universe(PALETTES[one_pal], one_sigma, one_L, one_stretch, one_nf);
-    if (one_pre > 0) { str pre((size_t)one_pre, (char)PALETTES[one_pal].b[0]); strs q2; for (auto &q : cell.Q) q2.push_back(pre + q);
-      q2.push_back(pre); q2.push_back(pre.substr(1)); q2.push_back(pre + (char)PALETTES[one_pal].b[0]); for (size_t i = 0; i < cell.Q.size() && i < 6; i++) q2.push_back(cell.Q[i]); cell.Q = q2; cell.pre = one_pre; }
+    shape_queries(cell, one_pal, one_pre, one_rep);
     Scope sc; sc.kinds = {kind_by_name(one_kind)}; sc.pd = "one";
     // run exactly that sub-cell through run_unit machinery
     std::vector<SubCell> subs = {{kind_by_name(one_kind), Params::parse(one_params), one_src}};
